@@ -230,3 +230,21 @@ Definition is_LC (t : ltok) : bool := match t with LC => true | _ => false end.
 Definition is_LD (t : ltok) : bool := match t with LD => true | _ => false end.
 Definition constructions (l : loc) (evs : list event) : nat := length (filter is_LC (lproj l evs)).
 Definition destructions (l : loc) (evs : list event) : nat := length (filter is_LD (lproj l evs)).
+
+(** * storage view: the alternatives of one object share their storage
+   For owners that keep ONE object of several possible types in the same storage (variant,
+   inplace_function) the location [Slot c i] is "alternative i of object c".  Collapsing the
+   alternatives of an object into one location gives the view of the storage itself:
+   [storage_wf evs] = no alternative is constructed while any alternative of the same object is
+   alive, and nothing is assigned / destroyed / read while the storage holds no object. *)
+Definition collapse (l : loc) : loc := match l with Slot c _ => Slot c 0 | _ => l end.
+Definition collapse_how (h : how) : how :=
+  match h with Value x => Value x | Copy s => Copy (collapse s) | Move s => Move (collapse s) end.
+Definition collapse_event (e : event) : event :=
+  match e with
+  | Construct l h => Construct (collapse l) (collapse_how h)
+  | Assign l h => Assign (collapse l) (collapse_how h)
+  | Destroy l => Destroy (collapse l)
+  | Use l => Use (collapse l)
+  end.
+Definition storage_wf (evs : list event) : bool := wf_trace (map collapse_event evs).
